@@ -12,6 +12,9 @@ struct Script {
     #[serde(default)]
     default_strategy: bool,
     calls: String, // f = after_failed_connect, d = after_disconnect, r = reset
+    /// min / max and the reported delays are in microseconds instead of milliseconds
+    #[serde(default)]
+    micros: bool,
 }
 
 fn main() {
@@ -27,13 +30,15 @@ fn main() {
         let mut s = if sc.default_strategy {
             rodbus::default_retry_strategy()
         } else {
-            rodbus::doubling_retry_strategy(Duration::from_millis(sc.min), Duration::from_millis(sc.max))
+            let d = |x: u64| if sc.micros { Duration::from_micros(x) } else { Duration::from_millis(x) };
+            rodbus::doubling_retry_strategy(d(sc.min), d(sc.max))
         };
+        let val = |d: Duration| if sc.micros { d.as_micros() as u64 } else { d.as_millis() as u64 };
         writeln!(out, "{}", json!({"e":"retry","call":"new","min":sc.min,"max":sc.max})).unwrap();
         for c in sc.calls.chars() {
             let v = match c {
-                'f' => json!({"e":"retry","call":"failed","ret": s.after_failed_connect().as_millis() as u64}),
-                'd' => json!({"e":"retry","call":"disconnect","ret": s.after_disconnect().as_millis() as u64}),
+                'f' => json!({"e":"retry","call":"failed","ret": val(s.after_failed_connect())}),
+                'd' => json!({"e":"retry","call":"disconnect","ret": val(s.after_disconnect())}),
                 _ => {
                     s.reset();
                     json!({"e":"retry","call":"reset"})
